@@ -132,7 +132,7 @@ ADD_TEXT = {
  "C18": " Where the parser reads with io.ReadFull/io.ReadAtLeast, io.ErrUnexpectedEOF is recognised. Inside the parse loop the init flag is only set to true and the chunk record is not replaced as a whole.",
  "C17": " Temporary and final MPD name are joined onto the same directory; removed and created segment files are named by the same sequence-number field.",
  "C19": " The hand-over of segment data to the channel goroutine is a send that cannot be skipped; a get-or-create function returns the object that is in the table.",
- "C20": " A new interval starts at the time of the request that finds the old one elapsed, and the counters are replaced only under a test of request time, reset time and interval. The header counter is the value returned by the Inc call that counted the request; the forwarded client address is not cut at a colon by hand. No method reachable from Inc unlocks the mutex explicitly.",
+ "C20": " A new interval starts at the time of the request that finds the old one elapsed, and the counters are replaced only under a test of request time, reset time and interval. The header counter is the value returned by the Inc call that counted the request; the forwarded client address is not cut at a colon by hand. No method reachable from Inc releases the mutex and takes it again.",
 }
 ADD_TECH = {k: UNITS_TECH for k in ("C01", "C02", "C03", "C04", "C05", "C06", "C09", "C12", "C13", "C14", "C16")}
 for _k, _v in ADD_TEXT.items():
